@@ -2855,3 +2855,21 @@ V('c07-text-twin-local-fallback', 'C07', 'R7.16', IMAP,
                     if not msg:
                         msg = b'Authentication failed.'
                     resp = ResponseBad(cmd.tag, msg)''', expect='silent')
+THREADS = 'pymap/threads.py'
+V('c06-revert-threadkey-pattern', 'C06', 'R6.18', THREADS,
+  "_pattern = re.compile(r'<[^<>]*>')", "_pattern = re.compile(r'<[^>]*>')")
+V('c06-threadkey-twin-plus', 'C06', 'R6.18', THREADS,
+  "_pattern = re.compile(r'<[^<>]*>')", "_pattern = re.compile(r'<[^<>]+>')",
+  expect='silent')
+V('c17-revert-append-recent', 'C17', 'R17.11', SESS,
+  '''                append_msg = replace(
+                    append_msg, flag_set=append_msg.flag_set - {Recent})
+''', '')
+V('c17-append-recent-twin-permanent', 'C17', 'R17.11', SESS,
+  '''                append_msg = replace(
+                    append_msg, flag_set=append_msg.flag_set - {Recent})
+''', '''                append_msg = replace(
+                    append_msg,
+                    flag_set=PermanentFlags(mbx.permanent_flags)
+                    & append_msg.flag_set)
+''', expect='silent')
